@@ -1218,7 +1218,7 @@ func constToValue(tv types.TypeAndValue) (Value, bool) {
 	case constant.Bool:
 		return BoolV{Known: true, Val: constant.BoolVal(tv.Value)}, true
 	case constant.String:
-		return Opaque{Why: "string"}, true
+		return StrV{S: constant.StringVal(tv.Value)}, true
 	}
 	return nil, false
 }
